@@ -84,6 +84,8 @@ impl Ldap {
 }
 pub uninterp spec fn next_of(s: SearchStream) -> Result<Option<ResultEntry>>;
 pub uninterp spec fn finish_of(s: SearchStream) -> LdapResult;
+// prophecy: what the inner start answers to a given request
+pub uninterp spec fn start_result(q: Asked) -> Result<()>;
 pub struct StartRFut { pub r: Result<()> }
 impl StartRFut { #[verifier::external_body] pub fn verif_await(self) -> (r: Result<()>) ensures r == self.r { unimplemented!() } }
 // what the inner start was asked for, with the handle's modifiers at that moment (ghost record, cf. V-search `Started`)
@@ -94,7 +96,9 @@ impl SearchStream {
     #[verifier::external_body]
     pub fn start(&mut self, base: &str, scope: Scope, filter: &str, attrs: A) -> (f: StartRFut)
         ensures final(self).asked@ == Some(Asked { controls: old(self).ldap.controls, timeout: old(self).ldap.timeout, search_opts: old(self).ldap.search_opts,
-            base: base@, scope: scope, filter: filter@, attrs: attrs })
+            base: base@, scope: scope, filter: filter@, attrs: attrs }),
+            f.r == start_result(Asked { controls: old(self).ldap.controls, timeout: old(self).ldap.timeout, search_opts: old(self).ldap.search_opts,
+                base: base@, scope: scope, filter: filter@, attrs: attrs })
     { unimplemented!() }
     #[verifier::external_body]
     pub fn next(&mut self) -> (f: NextFut) ensures f.r == next_of(*old(self)), final(self).ldap == old(self).ldap { unimplemented!() }
@@ -122,7 +126,7 @@ pub proof fn lemma_without_paging_id(s: Seq<RawControl>, n: nat)
     if n > 0 { lemma_without_paging_id(s, (n - 1) as nat); assert(s.take((n - 1) as int).push(s[n - 1]) =~= s.take(n as int)); } else { assert(s.take(0) =~= Seq::<RawControl>::empty()); }
 }
 //@lift name=PagedResults::start::keep_control file=src/adapters.rs block=".filter(|c|" as="fn keep_control(c: &RawControl, found_pr: &mut bool) -> (r: bool)"
-//@ sub "found_pr = true;" => "*found_pr = true;" count=*
+//@ sub "found_pr = " => "*found_pr = " count=*
 //@ spec
     ensures
         r == !is_paging_oid(*c), //# C16.the_callers_own_paging_control_and_only_that_is_dropped
@@ -177,8 +181,8 @@ impl PagedResults {
 //@ arg ".filter(|c|" => "&mut found_pr"
 //@ sub ".iter()\n            .filter(" => ".verif_ctrl_iter()\n            .filter("
 //@ sub "let empty_ctrls = vec![];" => "let empty_ctrls: Vec<RawControl> = vec![];"
-//@ sub "String::from(base)" => "verif_string_of(base)"
-//@ sub "String::from(filter)" => "verif_string_of(filter)"
+//@ sub "String::from(base)" => "verif_string_of(base)" count=*
+//@ sub "String::from(filter)" => "verif_string_of(filter)" count=*
 //@ ret r
 //@ insert after "ldap.controls = Some(controls.clone());"
         proof { assert(ldap.controls->0@ =~= controls@); }
@@ -190,6 +194,7 @@ impl PagedResults {
     ensures
         // a caller-supplied paging control is refused (relative to the assumed meaning of the filter idiom)
         (old(stream).ldap.controls matches Some(v) && exists|j: int| 0 <= j < v@.len() && is_paging_oid(#[trigger] v@[j])) ==> r is Err, //# C16.caller_supplied_paging_control_is_rejected
+        !(old(stream).ldap.controls matches Some(v) && exists|j: int| 0 <= j < v@.len() && is_paging_oid(#[trigger] v@[j])) ==> (final(stream).asked@ matches Some(q) && r == start_result(q)), //# C16.without_a_paging_control_of_the_callers_the_search_is_started_and_its_outcome_returned
         r is Ok ==> (final(stream).asked@ matches Some(q)
             && q.base == base@ && q.scope == scope && q.filter == filter@ && q.attrs == attrs
             && q.search_opts == old(stream).ldap.search_opts
@@ -244,7 +249,14 @@ impl PagedResults {
                             proof {
                                 assert(sent_ctrls->0@ == saved.controls->0@.push(paged_raw(self.page_size, pr.cookie@))); //# C16.follow_up_carries_the_other_controls_plus_the_paging_control_with_the_returned_cookie
                             }
+//@ insert before "continue 'ent;"
+                            proof {
+                                // the original stream goes on with the follow-up search: its handle AND its item receiver
+                                assert(stream.ldap == new_ldap && stream.rx == new_rx); //# C16.the_stream_continues_with_the_follow_up_searchs_handle_and_receiver
+                            }
 //@ insert before "stream.ldap = new_stream.ldap;"
+                            let ghost new_ldap = new_stream.ldap;
+                            let ghost new_rx = new_stream.rx;
                             proof {
                                 // the follow-up request: saved handle's modifiers, other controls + paging control(size, cookie), saved search
                                 let q = new_stream.ldap.issued@->0;
